@@ -187,9 +187,13 @@ def algebra_collect(acc, impl, n, prop, min_choices=(0, 1, 2, 3), res=3600):
         for qa in range(0, n):
             for qb in range(qa + 1, n):
                 iv = TI(start + timedelta(seconds=res * qa), start + timedelta(seconds=res * qb))
-                for mins in min_choices:
+                for mins_f in min_choices:
+                    # minimum durations that are NOT multiples of the resolution too (seeded change C17-a): the minimum run
+                    # length is floor(minDuration / resolution) slots, at least 1
+                    min_seconds = int(mins_f * res)
+                    mins = int(min_seconds // res)
                     k, got = call(impl, lambda: [(int((x.start - start).total_seconds()) // res, int((x.end - start).total_seconds()) // res)
-                                                 for x in sb.collectIntervals(iv, mins * res, pred)])
+                                                 for x in sb.collectIntervals(iv, min_seconds, pred)])
                     n_eval += 1
                     want = ref_intervals(bits, n, qa, qb, max(1, mins))
                     if k != "ok" or got != want:
@@ -204,7 +208,7 @@ def algebra_collect(acc, impl, n, prop, min_choices=(0, 1, 2, 3), res=3600):
                                 else:
                                     ms = []     # not explained by the listed mechanisms alone
                         acc.violation(prop, "collectIntervals-differs-from-reference",
-                                      dict(impl=impl, pattern="".join(map(str, bits)), window=(qa, qb), min_slots=mins, got=got, want=want), ms, None)
+                                      dict(impl=impl, pattern="".join(map(str, bits)), window=(qa, qb), min_seconds=min_seconds, resolution=res, min_slots=mins, got=got, want=want), ms, None)
     return n_eval
 
 
@@ -255,7 +259,7 @@ def c17_worker(job, acc):
         if time.time() - t0 > budget:
             acc.count("truncated-by-budget")
             break
-        ne = algebra_collect(acc, im, n, "C17", min_choices=(0, 1, 2, 3) if n <= 10 else (1, 3))
+        ne = algebra_collect(acc, im, n, "C17", min_choices=(0, 0.5, 1, 1.5, 1.75, 2, 2.5, 3) if n <= 8 else ((0, 1, 1.5, 2, 2.75, 3) if n <= 10 else (1, 2.5)))
         acc.count("law-evaluations", ne)
         acc.count("collect-evaluations", ne)
         acc.count("cases")
